@@ -19,6 +19,7 @@ type Eval struct {
 	VM           *VM
 	ModulesCache []Object
 	moduleStore  moduleStore
+	started      bool
 }
 
 // NewEval returns new Eval object.
@@ -59,14 +60,19 @@ func (r *Eval) Run(ctx context.Context, script []byte) (Object, *Bytecode, error
 	}
 
 	r.VM.modulesCache = r.ModulesCache
+	r.started = false
 	ret, err := r.run(ctx)
 	r.ModulesCache = r.VM.modulesCache
-	// arguments (or locals) beyond the locals of this script stay available to
-	// the next scripts, as they are to the rest of a single script
-	rest := r.Locals
-	r.Locals = r.VM.GetLocals(nil)
-	if len(rest) > len(r.Locals) {
-		r.Locals = append(r.Locals, rest[len(r.Locals):]...)
+	// a script that was not started, because the context was already done,
+	// has no locals to take over: the locals of the earlier scripts stay.
+	if r.started {
+		// arguments (or locals) beyond the locals of this script stay available to
+		// the next scripts, as they are to the rest of a single script
+		rest := r.Locals
+		r.Locals = r.VM.GetLocals(nil)
+		if len(rest) > len(r.Locals) {
+			r.Locals = append(r.Locals, rest[len(r.Locals):]...)
+		}
 	}
 	r.VM.Clear()
 
@@ -88,6 +94,7 @@ func (r *Eval) run(ctx context.Context) (ret Object, err error) {
 		r.VM.Abort()
 		err = ctx.Err()
 	default:
+		r.started = true
 		verifSync("Eval.run.beforeGo")
 		go func() {
 			defer close(doneCh)
